@@ -325,11 +325,7 @@ def run_wait(case, st):
             st.violation(f"C11:wait:{which}:{'missed' if during else 'spurious'}", rc, want, f"{res} events={events}"[:400])
 
     if "schedule" in case:
-        simenv.new_world()
-        s = vsched.replay_scheduler(case)
-        result = harness(s)
-        s.run()
-        on_exec(s, result())
+        on_exec(*vsched.replay(harness, case))
         return
     stats = vsched.explore_with_crosscheck(st, harness, P, on_exec, case)
     st.states += stats["executions"]
